@@ -325,3 +325,132 @@ func c04hFamily(cfg *runCfg, r *rand.Rand, cf *casesFile, m *meta) (int, error) 
 	m.Distribution["handler_changes"] = changes
 	return len(scs), nil
 }
+
+// ---- family "duplex": the inbound flow while the application publishes QoS 2 messages on the same client ----
+// The reader goroutine's acknowledgement writes (PUBACK/PUBREC/PUBCOMP) and the publishing goroutine's
+// PUBLISH/PUBREL writes share the transport; every client write takes a little time in the peer, so both
+// goroutines are regularly waiting for the write lock with a packet already built. The inbound timeline
+// (hand-overs and acknowledgement writes, by packet type) must be what the model says for the inbound
+// stream alone.
+func c04DuplexRun(pkts []c04Pkt, outbound int) ([]string, []string, string) {
+	var mu sync.Mutex
+	var coq, desc []string
+	var cli *mqtt.BaseClient
+	conn := newMemConn(1, func(c *memConn, pkt []byte) error {
+		if pkt[0]&0xF0 == 0x10 {
+			c.send(connackOK)
+			return nil
+		}
+		time.Sleep(100 * time.Microsecond)
+		id := 0
+		if len(pkt) >= 4 {
+			id = int(pkt[2])<<8 | int(pkt[3])
+		}
+		switch pkt[0] & 0xF0 {
+		case 0x30: // outbound PUBLISH (QoS 2): identifier follows the topic
+			tl := int(pkt[2])<<8 | int(pkt[3])
+			oid := uint16(pkt[4+tl])<<8 | uint16(pkt[5+tl])
+			c.send(encID(0x50, oid))
+			return nil
+		case 0x60: // outbound PUBREL
+			c.send(encID(0x70, uint16(id)))
+			return nil
+		case 0xE0:
+			return nil
+		}
+		mu.Lock()
+		switch pkt[0] {
+		case 0x40:
+			coq, desc = append(coq, fmt.Sprintf("WPubAck %d", id)), append(desc, fmt.Sprintf("PUBACK(%d)", id))
+		case 0x50:
+			coq, desc = append(coq, fmt.Sprintf("WPubRec %d", id)), append(desc, fmt.Sprintf("PUBREC(%d)", id))
+		case 0x70:
+			coq, desc = append(coq, fmt.Sprintf("WPubComp %d", id)), append(desc, fmt.Sprintf("PUBCOMP(%d)", id))
+		default:
+			coq, desc = append(coq, fmt.Sprintf("WPubAck %d", 99999)), append(desc, fmt.Sprintf("unexpected-write(%x)", pkt))
+		}
+		mu.Unlock()
+		return nil
+	})
+	defer conn.Close()
+	cli = &mqtt.BaseClient{Transport: conn}
+	cli.Handle(mqtt.HandlerFunc(func(m *mqtt.Message) {
+		cp := *m
+		cp.Payload = append([]byte{}, m.Payload...)
+		mu.Lock()
+		coq = append(coq, "Hand "+cLibMsg(&cp))
+		desc = append(desc, fmt.Sprintf("hand(q%d,id%d,#%d)", cp.QoS, cp.ID, c04P0(cp.Payload)))
+		mu.Unlock()
+	}))
+	ctx, cancel := ctxTimeout(20 * time.Second)
+	defer cancel()
+	if _, err := cli.Connect(ctx, "cid"); err != nil {
+		return nil, nil, "Connect: " + err.Error()
+	}
+	pubDone := make(chan int, 1)
+	go func() {
+		bad := 0
+		for i := 0; i < outbound; i++ {
+			pctx, pcancel := ctxTimeout(3 * time.Second)
+			// identifiers far away from the inbound pool (the two directions are independent anyway)
+			if err := cli.Publish(pctx, &mqtt.Message{Topic: "out", QoS: mqtt.QoS2, ID: uint16(20000 + i), Payload: []byte{byte(i)}}); err != nil {
+				bad++
+			}
+			pcancel()
+		}
+		pubDone <- bad
+	}()
+	// the inbound stream trickles in, so that the broker's PUBREC / PUBCOMP for the outbound publishes are
+	// interleaved with it (the reader alternates between the two flows)
+	for _, p := range pkts {
+		conn.send(p.bytes())
+		time.Sleep(120 * time.Microsecond)
+	}
+	stuck := ""
+	select {
+	case bad := <-pubDone:
+		if bad > 0 {
+			stuck = fmt.Sprintf("%d outbound QoS 2 publishes did not complete", bad)
+		}
+	case <-time.After(15 * time.Second):
+		stuck = "outbound publishes did not finish"
+	}
+	if !conn.waitReaderIdle(8 * time.Second) {
+		stuck = "the reader did not finish the inbound stream"
+	}
+	mu.Lock()
+	defer mu.Unlock()
+	if stuck != "" {
+		coq = append(coq, fmt.Sprintf("WPubComp %d", 99998))
+		desc = append(desc, stuck)
+	}
+	return append([]string{}, coq...), append([]string{}, desc...), ""
+}
+
+func c04DuplexFamily(cfg *runCfg, r *rand.Rand, cf *casesFile, m *meta) (int, error) {
+	n := 12
+	if cfg.tier != "quick" {
+		n = 120
+	}
+	var cases []string
+	for i := 0; i < n; i++ {
+		seq := 0
+		pkts := c04hRandPkts(r, 60+r.Intn(40), &seq)
+		coq, desc, fatal := c04DuplexRun(pkts, 40+r.Intn(20))
+		if fatal != "" {
+			coq, desc = []string{fmt.Sprintf("WPubComp %d", 99998)}, []string{fatal}
+		}
+		var ps, pd []string
+		for _, p := range pkts {
+			ps = append(ps, p.coq())
+			pd = append(pd, p.desc())
+		}
+		cases = append(cases, cTuple("true", cListInline(ps), cListInline(coq)))
+		m.Families["duplex"] = append(m.Families["duplex"], map[string]interface{}{"inbound": pd, "reader_timeline": desc})
+	}
+	cf.def("duplex_cases", "list (bool * list in_pkt * list in_event)", cList(cases))
+	cf.result("V_duplex", "c04_spec_violations duplex_cases")
+	cf.result("M_duplex", "c04_model_mismatches duplex_cases")
+	m.Distribution["duplex_runs"] = n
+	return n, nil
+}
